@@ -36,6 +36,12 @@ CHECKS = {
             "(element-wise mixes for interrupted loops), the next phase must be the default successor, and continuing for <= 3 steps must equal a fresh stepper started from the copied state. Complete over fault points per program; programs sampled.",
             "Dependence is read from the recorded graph (C02); the reference trace comes from vlib/refexec.py; resumption is skipped when values are about to leave the exact domain.",
             "DESIGN.md 2/C11"),
+    "C15": ("Hypothesis-generated programs re-generated in child processes under different PYTHONHASHSEED x container orders x phases-dict orders x generation histories; oracle = equal sha256 digests of Python text, Fortran text (default and instrumented) and interpreter history",
+            "Each program is rebuilt in child processes (4 hash seeds quick, 16 thorough) with its statements as list / reversed / shuffled / frozenset and the phases dict in both insertion orders; children walk the program list in opposite directions, "
+            "so each program is generated cold and after separate generator objects produced other code in the same process. Every digest of a program must be equal; a mismatch is reported with the first differing line. "
+            "One defect (ArrayType's process-global default index-variable counter) is pinned as a known finding; user types are declared with explicit index_vars.",
+            "The method description is the set of phases and statements; texts are compared by hash and diffed only on disagreement.",
+            "DESIGN.md 2/C15"),
     "C16": ("Hypothesis-generated pairs of programs with clashing temporaries, loop counters, flags and ids x predicates; oracle = structural renaming check (injective rho/sigma) + interpreter differential fused vs alone",
             "fuse_two_dags is run on generated pairs; the fusion must contain A unchanged and B under an injective variable renaming that is the identity on persistent names / names the predicate rejects and whose images avoid A's names, "
             "with ids, depends_on, guards and loop counters renamed consistently; then A alone, B alone and the fusion are executed for 1-3 steps and private persistent variables compared. Sampled.",
@@ -139,7 +145,7 @@ def main():
             technique=tech,
         ))
     claimed = {c["property_id"] for c in checks}
-    na = [dict(property_id=p, reason="check not built yet in this round (planned, see DESIGN.md section 6); nothing is claimed for it")
+    na = [dict(property_id=p, reason="no check registered for it; nothing is claimed")
           for p in ALL if p not in claimed]
     notes_fn = os.path.join(ROOT, "tools", "manifest_notes.txt")
     notes = open(notes_fn).read() if os.path.exists(notes_fn) else ""
